@@ -516,6 +516,7 @@ class MTMB(SymObj):
         self.d = {}
         self.err = {}
         self.log = []
+        self.havocked = []
 
     def _key(self, key):
         if isinstance(key, TupB):
@@ -546,6 +547,13 @@ class MTMB(SymObj):
                 return WrapC(list(group), next_call)
 
             return Builtin("wrap_dependent", wrap)
+        if f"MultiTypeMap.{name}" in source.module("typemap").functions:
+            # a method of the table without a contract (added by a change): it may do anything to the table
+            def uncontracted(I, *a, **k):
+                self.havocked.append(name)
+                return None
+
+            return Builtin(name, uncontracted)
         raise OutOfSubset(f"MultiTypeMap.{name} in resolve")
 
 
@@ -604,6 +612,7 @@ def t_resolve_writes(shape):
             if not groups:
                 I.require(out[0] == "raise" and out[1].tag == "nomethod" and not m.log, "no_candidates.raises_nomethod_and_writes_nothing")
                 return
+            I.require(not m.havocked, "resolve_calls_no_method_of_the_table_that_has_no_contract")
             I.require(out[0] == "return", "returns_normally_when_there_are_candidates")
             # ---- independent computation of the expected writes (spec of DESIGN A.2) on this path ------------
             dep = [I.branch(z3.Or(*[c.f["handler"].dependent for c in g])) for g in groups]
@@ -1063,6 +1072,15 @@ def t_e2e(N, shape, clause, perm=False):
                 else:
                     I.require(False, f"unexpected_exception[{out[1].cls}]")
                 I.require(E_.tup not in m.d, "no_handler_cached_on_error")
+            # MultiTypeMap.all[key]: the code objects of exactly the applicable methods (what __missing__ consults to decide
+            # whether the caller of call_next is "applicable to args", C07)
+            allset = m.allmap.get(E_.tup)
+            I.require(allset is not None, "candidate_set_recorded_for_the_looked_up_key")
+            if allset is not None:
+                for h in H:
+                    member = I.contains(allset, h.code)
+                    member = z3.BoolVal(member) if isinstance(member, bool) else member
+                    I.require(member == app[h], "recorded_candidate_set_is_exactly_the_applicable_methods")
             if clause == "complete":
                 I.require(z3.Implies(nomethod, out[0] == "raise" and out[1].tag == "nomethod"), "complete.nomethod")
                 for h in H:
@@ -1345,3 +1363,113 @@ def t_wrap_dependent():
             I.require(("self, " in allargs) == bool(I.branch(hs[0].first_is_self)) or ("" in allargs), "self_threaded_iff_first_handler_takes_self")
 
     return w, thunk, {"fail_fast": False}
+
+
+# --------------------------------------------------------------------------------------------------
+# Candidate.dominates / sort_key as stand-alone unbounded contracts (C02) and the sum lemma that makes the
+# reverse-sorted candidate list put every dominating candidate first
+
+
+def t_candidate():
+    w = World()
+    w.inline("typemap:Candidate.dominates", "typemap:Candidate.sort_key")
+    w.is_singleton = lambda I, z, other: False
+
+    def thunk(I):
+        n = z3.Int("n")
+        I.assume(n >= 0)
+        sa = z3.Function("spec_a", z3.IntSort(), z3.IntSort())
+        sb = z3.Function("spec_b", z3.IntSort(), z3.IntSort())
+        a = Rec("typemap:Candidate", dict(handler="ha", priority=ZV(z3.Real("prio_a"), "real"), specificity=SymSeq(n, lambda i: ZV(sa(i), "int"), "spec"), tiebreak=ZV(z3.Int("tb_a"), "int")))
+        b = Rec("typemap:Candidate", dict(handler="hb", priority=ZV(z3.Real("prio_b"), "real"), specificity=SymSeq(n, lambda i: ZV(sb(i), "int"), "spec"), tiebreak=ZV(z3.Int("tb_b"), "int")))
+        I.assume(z3.Real("prio_a") >= z3.Real("prio_b"))  # requires: established by the reverse sort at the call site in _pull
+        r = I.truth(I.call_repo("typemap:Candidate.dominates", [a, b], {}))
+        r = z3.BoolVal(r) if isinstance(r, bool) else r
+        i = z3.Int("i")
+        pw = z3.ForAll([i], z3.Implies(z3.And(0 <= i, i < n), sa(i) >= sb(i)))
+        ne = z3.Exists([i], z3.And(0 <= i, i < n, sa(i) != sb(i)))
+        spec = z3.Or(z3.Real("prio_a") > z3.Real("prio_b"), z3.And(z3.Real("prio_a") == z3.Real("prio_b"), z3.Or(z3.And(ne, pw), z3.And(z3.Not(ne), z3.Int("tb_a") > z3.Int("tb_b")))))
+        I.require(r == spec, "dominates.is_priority_then_pointwise_levels_then_tiebreak")
+
+    return w, thunk, {"timeout_ms": 10000}
+
+
+def t_sum_lemma():
+    """Lemma (induction on the length): pointwise >= and somewhere > implies a strictly greater sum, hence
+    dominates(a, b) at equal priority implies sort_key(a) > sort_key(b) and the sorted list puts a first."""
+    w = World()
+
+    def thunk(I):
+        sa = z3.Function("spec_a", z3.IntSort(), z3.IntSort())
+        sb = z3.Function("spec_b", z3.IntSort(), z3.IntSort())
+        Sa = z3.Function("sum_a", z3.IntSort(), z3.IntSort())  # prefix sums
+        Sb = z3.Function("sum_b", z3.IntSort(), z3.IntSort())
+        k = z3.Int("k")
+        i = z3.Int("i")
+        I.assume(z3.And(Sa(0) == 0, Sb(0) == 0))
+        I.assume(z3.ForAll([i], z3.Implies(i >= 0, z3.And(Sa(i + 1) == Sa(i) + sa(i), Sb(i + 1) == Sb(i) + sb(i)))))
+        P = lambda m: z3.Implies(z3.ForAll([i], z3.Implies(z3.And(0 <= i, i < m), sa(i) >= sb(i))), z3.And(Sa(m) >= Sb(m), z3.Implies(z3.Exists([i], z3.And(0 <= i, i < m, sa(i) > sb(i))), Sa(m) > Sb(m))))
+        I.require(P(z3.IntVal(0)), "lemma.sum.base")
+        I.assume(k >= 0)
+        I.assume(P(k))
+        I.require(P(k + 1), "lemma.sum.step")
+
+    return w, thunk, {"timeout_ms": 10000}
+
+
+def t_resolve_interrupt(shape):
+    """C18 (cache-miss resolution, 'an interrupt arriving at any moment'): an asynchronous exception between two
+    writes of resolve must leave the table either without any entry for the tuple or with all of them; a partial
+    state makes a later call_next answer 'No method' permanently (the first-rank entry is a cache hit)."""
+
+    def build():
+        w = ResolveWorld()
+        w.inline("typemap:MultiTypeMap.resolve")
+
+        def thunk(I):
+            def fresh():
+                groups = []
+                for gi, size in enumerate(shape):
+                    groups.append([Rec("typemap:Candidate", dict(handler=HandlerC(I, f"g{gi}h{j}"), priority=0, specificity=(), tiebreak=0)) for j in range(size)])
+                for g in groups:
+                    for c in g:
+                        I.assume(c.f["handler"].has_code)
+                        I.assume(z3.Not(c.f["handler"].dependent))
+                return MTMB(w, groups)
+
+            m = fresh()
+            I.call_repo("typemap:MultiTypeMap.resolve", [m, TupB()], {})
+            total = len(m.log)
+            full = [(k, kind) for kind, k, _ in m.log]
+            for cut in range(0, total + 1):
+                m = fresh()
+                orig_set, orig_err = m.py_setitem, None
+
+                class Stop(Exception):
+                    pass
+
+                count = {"n": 0}
+
+                def guard():
+                    if count["n"] == cut:
+                        raise PyRaise(ExcV("KeyboardInterrupt", tag=f"before write {cut + 1} of {total}"))
+                    count["n"] += 1
+
+                real_set = MTMB.py_setitem
+                real_err = ErrLog.py_setitem
+                MTMB.py_setitem = lambda self, I2, key, v: (guard(), real_set(self, I2, key, v))[1]
+                ErrLog.py_setitem = lambda self, I2, key, v: (guard(), real_err(self, I2, key, v))[1]
+                try:
+                    try:
+                        I.call_repo("typemap:MultiTypeMap.resolve", [m, TupB()], {})
+                    except PyRaise:
+                        pass
+                finally:
+                    MTMB.py_setitem = real_set
+                    ErrLog.py_setitem = real_err
+                done = len(m.log)
+                I.require(done == 0 or done == total, f"interrupted_before_write[{cut + 1}_of_{total}].entries_of_the_tuple_are_all_or_nothing")
+
+        return w, thunk, {"shape": shape, "fail_fast": False}
+
+    return build
